@@ -287,6 +287,35 @@ def _emit_fn(g, source, a, blocks, vacuity):
             rules.append(("R8", f"signature: {old.strip()} -> {new.strip()}"))
     body = rewrite_body(it.body_text, rules, intended_panics=bool(a.get("intended_panics")))
     body = apply_r9(body, rules)
+    if a.get("unproject"):
+        # R4d: pin_project alias elimination.  `let [mut] this = self[.as_mut()].project();` only builds a struct of
+        # (pinned) references to the fields; the statement is dropped and every `this.FIELD` becomes `(&mut self.FIELD)`.
+        done = False
+        for pat in ("let mut this = self.as_mut().project();", "let this = self.as_mut().project();", "let this = self.project();",
+                    "let mut this = self.project();"):
+            try:
+                body = replace_pattern(body, pat, "", f.name, 1)
+                done = True
+                rules.append(("R4d", f"`{pat}` dropped; `this.F` -> `(&mut self.F)`"))
+                break
+            except ExtractError:
+                continue
+        if not done:
+            raise ExtractError(f"anchor lost: `let this = self.project();` in {f.name}")
+        tk = tokenize(body)
+        outp = []
+        k = 0
+        while k < len(tk):
+            t = tk[k]
+            if t.kind == "ident" and t.text == "this" and k + 2 < len(tk) and tk[k + 1].text == "." and tk[k + 2].kind == "ident":
+                outp.append("(&mut self." + tk[k + 2].text + ")")
+                k += 3
+                continue
+            if t.kind == "ident" and t.text == "this":
+                raise ExtractError(f"R4d refused: bare use of `this` in {f.name}")
+            outp.append(t.text)
+            k += 1
+        body = "".join(outp)
     if a.get("alias_this"):
         # R4c: with R4 the receiver already is `&mut self`; `let this = self.as_mut().get_mut();` (or `self.get_mut()`)
         # only re-borrows it.  The statement is dropped and the alias `this` is renamed to `self`.
